@@ -253,8 +253,33 @@ def pool_job_closures(fx):
     return sorted(set(out))
 
 
+def xattr_flags_plain(fx):
+    """(xattrs) an extended attribute is *set*, whether or not the destination already has one of that name:
+    the raw setxattr wrappers take a flags argument, and XATTR_CREATE / XATTR_REPLACE make the call fail (EEXIST /
+    ENODATA) on an overwritten destination -- a failure the xattr exemption then turns into a warning."""
+    obs = []
+    n = 0
+    for f in ro.fns_in_scope(fx, crates=("libfs", "libxcp")):
+        for bi, t in f.calls():
+            o = (t.get("fn") or {}).get("orig_alias_of") or q.names(t)[0] or ""
+            if not (o.startswith("rustix::fs::xattr::") and o.endswith("setxattr")) or not t["args"]:
+                continue
+            a = t["args"][-1]
+            c = a.get("c") or {}
+            calls, atoms, _ff = q.arg_origin_calls(f, t, len(t["args"]) - 1)
+            plain = (c.get("v") == 0) or (c.get("unevaluated") or "").endswith("::empty") or \
+                any(x.endswith("XattrFlags::empty") or x.endswith("::empty") or x.endswith("Default::default") for x in calls)
+            obs.append(Ob("R-TABLE", mkkey("R-TABLE", f.path, o, n, "flags-empty"), plain, q.loc_of(t), f.path,
+                          "flags of %s: %s" % (o.split("::")[-1], "none (set whether or not the attribute exists)" if plain else
+                                               "%s -- fails on an attribute the destination already has (or lacks)" % (c.get("unevaluated") or sorted(calls) or "?")),
+                          None if plain else dict(flags=c.get("unevaluated") or sorted(calls))))
+            n += 1
+    return obs
+
+
 def c10(ctx):
     fx = ctx.fx("A")
+    ctx.add(xattr_flags_plain(fx))
     ctx.add(owner_before_mode(fx))
     ctx.add(times_after_data(fx))
     ctx.add(finalise_gates(fx))
